@@ -242,7 +242,7 @@ Theorem SQLM_interpolation_lint : Gen.SqlConst.sql_interpolations_ok = true.
 Proof. exact sql_interpolations_checked. Qed.
 Print Assumptions SQLM_interpolation_lint.
 (* the model gives a failed or cancelled save / query no lasting effect on later operations (`C07_sql_fail_at_k_restores`, `C07_sql_later_events_unaffected`): the code holds its
-   slots, locks and transactions only through `async with` / `with`, and shields nothing from cancellation *)
+   slots, locks, connections and transactions (`C07_sql_single_txn`: committed or rolled back as a whole) only through `async with` / `with`, and shields nothing from cancellation *)
 Theorem SQLM_waits_scoped_lint : Gen.SqlConst.sql_waits_scoped = true.
 Proof. vm_compute. reflexivity. Qed.
 Print Assumptions SQLM_waits_scoped_lint.
